@@ -79,15 +79,15 @@ pub open spec fn overlap(a: Seq<char>, b: Seq<char>) -> bool { is_suffix(a, b) |
 impl MultiDomain {
     pub fn new_at_vec_of_string(base_domains: Vec<String>) -> (ret: Result<MultiDomain, DomainError>)
         ensures
-            //# C12:host.multi_domain.accepted_configurations_are_kept_in_order
+            //# C12,C01:host.multi_domain.accepted_configurations_are_kept_in_order
             ret matches Ok(md) ==> sviews(md.base_domains@) == sviews(base_domains@),
-            //# C12:host.multi_domain.invalid_domains_are_refused
+            //# C12,C01:host.multi_domain.invalid_domains_are_refused
             (exists|i: int| 0 <= i < base_domains@.len() && !valid_domain(#[trigger] base_domains@[i]@)) ==> ret is Err,
-            //# C12:host.multi_domain.overlapping_domains_are_refused
+            //# C12,C01:host.multi_domain.overlapping_domains_are_refused
             (exists|i: int, j: int| 0 <= i < j < base_domains@.len() && overlap(#[trigger] base_domains@[i]@, #[trigger] base_domains@[j]@)) ==> ret is Err,
-            //# C12:host.multi_domain.no_domains_are_refused
+            //# C12,C01:host.multi_domain.no_domains_are_refused
             base_domains@.len() == 0 ==> ret is Err,
-            //# C12:host.multi_domain.everything_else_is_accepted
+            //# C12,C01:host.multi_domain.everything_else_is_accepted
             (base_domains@.len() > 0 && (forall|i: int| 0 <= i < base_domains@.len() ==> valid_domain(#[trigger] base_domains@[i]@))
                 && (forall|i: int, j: int| 0 <= i < j < base_domains@.len() ==> !overlap(#[trigger] base_domains@[i]@, #[trigger] base_domains@[j]@))) ==> ret is Ok,
             //#-
